@@ -69,7 +69,7 @@ Proof.
     assert (G : forall i' s' p' st0, PL rec k name ty attrs comment pos (content ++ [inl sub]) i' s' None p' st0 = Val (Ret t st') ->
                 exists more, t = ENode name ty attrs (content ++ more) comment).
     { intros i' s' p' st0 H0. apply IH in H0 as (more & ->). rewrite <- app_assoc. eauto. }
-    destruct (sub_name =? name_short_name T)%N; [|eapply G; exact H].
+    destruct ((sub_name =? name_short_name T)%N && match content with [] => true | _ :: _ => false end); [|eapply G; exact H].
     destruct (first_string sub); [|eapply G; exact H].
     inv H as u9 s9 E9. eapply G; exact H.
   - inv H as nm s3 E3. destruct nm as [n|]; [|discriminate H]. destruct (n =? name)%N; [|discriminate H].
@@ -105,13 +105,13 @@ Proof.
     destruct (le_lt_dec (depth sub) d) as [LE|GT].
     + rewrite (mbind_ret_step _ _ _ _ _ (R1 LE)).
       assert (MD' : maxd (content ++ [inl sub]) <= d) by (rewrite maxd_app; cbn [maxd]; lia).
-      destruct (sub_name =? name_short_name T)%N; [|apply IH; assumption].
+      destruct ((sub_name =? name_short_name T)%N && match content with [] => true | _ :: _ => false end); [|apply IH; assumption].
       destruct (first_string sub); [|apply IH; assumption].
       sync H as u9 s9 E9. apply IH; assumption.
     + rewrite (mbind_fuel_step _ _ _ (R2 GT)).
       assert (DT : S d < depth t).
       { assert (SH : exists more, t = ENode name ty attrs ((content ++ [inl sub]) ++ more) comment).
-        { destruct (sub_name =? name_short_name T)%N; [|eapply pe_loop_shape; exact H].
+        { destruct ((sub_name =? name_short_name T)%N && match content with [] => true | _ :: _ => false end); [|eapply pe_loop_shape; exact H].
           destruct (first_string sub); [|eapply pe_loop_shape; exact H].
           inv H as u9 s9 E9. eapply pe_loop_shape; exact H. }
         destruct SH as (more & ->). rewrite depth_node, !maxd_app. cbn [maxd]. lia. }
